@@ -43,6 +43,22 @@ def gen_ops(rng, ln, writes=True, queries=True):
     return ops
 
 
+def add_owner_moves(rng, ops, ln):
+    """the file object under a CTR wrapper is moved by its owner (another wrapper on it, the caller) and the wrapper then SEEKS
+    before its next call - the discipline under which sharing a file object works with the real code: after its own seek the
+    wrapper's view is what it would have been anyway"""
+    for _ in range(rng.randint(1, 3)):
+        i = rng.randint(0, len(ops))
+        mover = ['is', rng.pick([0, 16, 32, ln, rng.randint(0, ln + 20)])]
+        seek = ['s', rng.pick([0, 1, 16, 17, ln, rng.randint(0, ln + 6)]), 0] if rng.chance(0.7) else \
+            ['s', rng.pick([0, -1, -16, -ln]), 2]
+        if rng.chance(0.4):
+            # ... landing exactly where the owner left the file, or where the wrapper stood before
+            seek = ['s', mover[1], 0]
+        ops[i:i] = [mover, seek]
+    return ops
+
+
 class StackCheck(Check):
     """cases: {'node': stack description, 'ops': [...]}"""
 
@@ -134,8 +150,12 @@ class StackCheck(Check):
 
     def shrink(self, case):
         ops = case['ops']
+        ctr = 'ctr' in chain(case['node']) or 'twl' in chain(case['node'])
         for i in range(len(ops)):
-            yield {'node': case['node'], 'ops': ops[:i] + ops[i + 1:]}
+            cand = ops[:i] + ops[i + 1:]
+            if ctr and any(o[0] == 'is' and (j + 1 >= len(cand) or cand[j + 1][0] != 's') for j, o in enumerate(cand)):
+                continue        # an owner's move must stay followed by the wrapper's own seek (see add_owner_moves)
+            yield {'node': case['node'], 'ops': cand}
         if case['node'][0] in ('cw',):
             yield {'node': case['node'][1], 'ops': ops}
         for i, op in enumerate(ops):
